@@ -272,7 +272,7 @@ PROPERTY_RULES = {
         "assumptions": COMMON_ASSUMPTIONS,
     },
     "C15": {
-        "rules": ["NONDET", "ADMISSIBLE-SEEDED", "ONE-PER-PAIR", "CONC-SEEDED", "UNIT-INTERVAL", "SEED-TOTAL", "ER-DRAW"],
+        "rules": ["NONDET", "ADMISSIBLE-SEEDED", "ONE-PER-PAIR", "CONC-SEEDED", "UNIT-INTERVAL", "SEED-TOTAL", "ER-DRAW", "BITS"],
         "explanation": "No library body reaches an ambient source of nondeterminism (time, hash-order containers, thread ids, "
                        "env, OS RNG) and the CPU count flows into a PRNG seed only in the two documented AdjacencyMap "
                        "generators (NONDET); every seeded generator checks order > 0 and p in [0, 1] before returning "
@@ -473,33 +473,35 @@ _ADDENDA = {
               "through take / skip / step_by / take_while / skip_while is reported whatever the shape (scan-restricted).",
 }
 _PROP_ADDENDA = {
-    "C02": " has_walk reaches its pairwise test only for sequences of at least two vertices (walk-min-length).",
+    "C16": " In the Self::empty(order) + add_arc conversions every exit returns the digraph that was created with the source's order "
+           "and filled; an early return of another constructor's result is a violation (returns-the-filled-digraph).",
+    "C02": " has_walk reaches its pairwise test only for sequences of at least two vertices (walk-min-length). A degree query (min/max in/out/total degree) answers from size() and the order alone only on branches where every digraph with those counts has that answer (size-shortcut, evaluated against the definitions for orders 1..4).",
     "C05": " shortest_path applies the target predicate to vertices in the order the traversal yields them; a scan over "
            "positions, a range or vertices() is a violation (P3-target-in-yield-order).",
     "C08": " The diagonal loop and the three loops of the triple loop range over vertices() or 0..order (F4-diagonal-domain, "
            "F1-all-vertices).",
     "C11": " complement / converse / union / filter_vertices never write in bulk (extend, append) into a field of a local "
            "representation value, bypassing add_arc (OPS-WRITES). An AdjacencyMap method does not compare the orders of two maps "
-           "and then produce its result without looking at one of them (IDSRC order-compared-as-vertex-set).",
+           "and then produce its result without looking at one of them (IDSRC order-compared-as-vertex-set). The cut points of AdjacencyMap::union's merge run from 0 to the combined row count in non-decreasing steps (CONC merge-partition-points, the pushed closed form evaluated for 1 <= t <= n <= 40).",
     "C12": " IDSRC covers the blanket impls of graaf::op and every predicate of the property; is_spanning_subdigraph does not "
            "compare the two vertex sequences through zip() (spanning-vertex-sets-equal) and scans the arcs of self against "
            "d, not the converse (is_spanning_subdigraph-direction). The closed form that is_tournament / is_semicomplete / "
-           "is_complete compare size() with is n(n-1)/2 resp. n(n-1) (evaluated as a term for orders 1..64).",
+           "is_complete compare size() with is n(n-1)/2 resp. n(n-1) (evaluated as a term for orders 1..64). A predicate answers from size() and the order alone only on branches where every digraph with those counts has that answer (size-shortcut: `max - size <= 2 => semicomplete` fails at order 3, size 4).",
     "C14": " A per-worker scratch container is not carried from one row to the next (shrinking edits count; a remove that is "
            "followed on every path by the insert of the same key is balanced).",
     "C15": " next_f64 may also be (integer expression of the draw) as f64 * C, evaluated at its largest value in IEEE double "
            "arithmetic (u64::MAX as f64 is 2^64). A seeded generator does not hand out work through an atomic read-modify-write "
            "while its workers own PRNG streams (NONDET dynamic-work-in-seeded-generator). In `(0..a).chain(a + 1..n)` the "
-           "skipped vertex is the row being filled (ER-DRAW row-heads-skip-the-row).",
+           "skipped vertex is the row being filled (ER-DRAW row-heads-skip-the-row). The AdjacencyMatrix generators write the bit matrix one bit at a time (BITS): a word-wise fill with PRNG output sets diagonal cells.",
     "C18": " is_connected returns true only on paths that looked at the matrix (connected-without-scan).",
     "C20": " A hand-written eq / cmp that walks the operands' fields through zip() without comparing their lengths is not "
            "field-wise (fieldwise); on every path on which a hand-written eq can return true the equality of every field has "
            "been established (eq-compares-every-field).",
     "C19": " search_by calls the target predicate with the predecessor entry as stored, not with an Option that was filtered or "
-           "mapped on the way (predicate-sees-stored-entry).",
+           "mapped on the way (predicate-sees-stored-entry). Inside the walk, the only exit ahead of the predicate call is the link lookup itself: every vertex the walk stands on is put to the predicate before the walk can end there (predicate-decides-every-visited-vertex).",
     "C17": " A per-worker scratch container is not carried from one row to the next; a result row is written only after row u of "
            "each operand was read or is known not to exist (rows-merged); row chunks zipped with per-worker state have one "
-           "item per chunk on the other side (zip-covers-chunks).",
+           "item per chunk on the other side (zip-covers-chunks). The cut points of AdjacencyMap::union's merge run from 0 to the combined row count in non-decreasing steps for every thread count (merge-partition-points).",
 }
 for _pid, _d in PROPERTY_RULES.items():
     for _r, _txt in _ADDENDA.items():
